@@ -625,7 +625,7 @@ static void emit_same(vh::Trace& tr, const std::string& ctx, const std::string& 
                       const std::vector<Row>* rF, const std::vector<Row>* B, const std::vector<Row>* rB, const std::vector<Row>* O, const std::vector<Row>* rO) {
   for (int i = 0; i < S.nb; ++i) {
     vh::Json j("Same");
-    j.str("ctx", ctx).str("name", name).str("pair", pair).num("step", step).num("i", i).arr("b", bin_list(S.bins[i]));
+    j.str("ctx", ctx).str("name", name).str("pair", pair).num("step", step).num("ntof", S.ntof).num("i", i).arr("b", bin_list(S.bins[i]));
     if (F) j.raw("F", row_json((*F)[i], true)).raw("rF", row_json((*rF)[i], true));
     if (B) j.raw("B", row_json((*B)[i], true)).raw("rB", row_json((*rB)[i], true));
     if (O) j.raw("O", row_json((*O)[i], true)).raw("rO", row_json((*rO)[i], true));
